@@ -37,10 +37,12 @@ Report == PrintT(<<"TRACE-BAD", l, ToJson(Ev)>>)
 \* what each event must satisfy, given the model state
 Rule ==
   CASE Ev.op = "reset"    -> TRUE
+    \* (a panic is an outcome like any other here - out = 0 - and must be just as reproducible;
+    \*  panic-freedom itself is C03/C10's statement, not C14's)
     [] Ev.op = "sample"   -> /\ (Ev.r # 0 => st[Ev.r] = Ev.pre)            \* the handle is where the model says
-                             /\ Ev.res = "Ok"                                \* no panic
                              /\ Consistent(cls[Ev.o], Ev.pre, Ev.out, Ev.post)
-    [] Ev.op = "iter"     -> /\ st[Ev.r] = Ev.pre /\ Ev.res = "Ok"
+    [] Ev.op = "iter"     -> Ev.res # "Ok" \/
+                             /\ st[Ev.r] = Ev.pre
                              /\ Known(cls[Ev.o], Ev.pre)                     \* shadow samples were logged first
                              /\ LET e1 == Lookup(cls[Ev.o], Ev.pre) IN
                                 /\ e1[3] = Ev.outs[1]
